@@ -3,10 +3,10 @@ import itertools, re
 import xml.parsers.expat as expat
 from vp import core, mmd, pmap
 
-BODIES = [b"", b"para text\n", b"a & b < c > d \"q\" 'z'\n", b"tab\there  two  spaces \n", b"* l1\n* l2\n", b"    code <x> & y\n", b"```\nf & <g>\n```\n", b"line1\nline2\n\nsecond para\n",
+BODIES = [b"", b"\xc3\x9cber text \xe2\x80\xa0\n", b"a & b < c > d \"q\" 'z'\n", b"tab\there  two  spaces \n", b"* l1\n* l2\n", b"    code <x> & y\n", b"```\nf & <g>\n```\n", b"line1\nline2\n\nsecond para\n",
           b"&amp; &lt; &#10; &quot; literal entities\n", b"caf\xc3\xa9 \xe2\x80\xa0 \xf0\x9f\x98\x80\n", b"    code\n\n  \n", b"text\n \n\t\n"]
 STYLES = ["atx", "closed", "setext"]
-METAS = [b"", b"Title: My Title\n", b"Title: T & <x> \"q\"\nAuthor: Some One\n", b"Title: B\nBase Header Level: 2\n", b"Base Header Level: 3\nmy key: v: w\n"]
+METAS = [b"", b"Title: My Title\n", b"Title: T & <x> \"q\"\nAuthor: Some One\n", b"Title: B\nBase Header Level: 2\n", b"Base Header Level: 3\nmy key: v: w\n", b"Author: \xc3\x89mile \xe2\x80\xa0\nTitle: \xc3\x9cber\n"]
 PRE = [b"", b"preamble text & more\n"]
 
 def level_seqs(n):
@@ -160,13 +160,14 @@ def escape_case(L):
 # heading titles: the reserved/escape alphabet plus what is markup inside a heading line
 TRES = [x for x in RES if x not in (b"\n", b"&#10;")] + [b"#", b" #", b"##", b"\\#", b"*", b"`", b"=", b"-", b"[x]", b":", b"C#"]
 def title_case(L):
-    n = len(TRES); shapes = 4; styles = 5
+    n = len(TRES); shapes = 5; styles = 5
     def case(idx):
         st = idx % styles; idx //= styles; sh = idx % shapes; idx //= shapes
         parts = []
         for _ in range(L): parts.append(TRES[idx % n]); idx //= n
         x = b"".join(parts)
-        title = (b"Ta" + x + b"b", b"Ta " + x + b" b", b"Ta" + x, b"Ta " + x)[sh]
+        title = (b"Ta" + x + b"b", b"Ta " + x + b" b", b"Ta" + x, b"Ta " + x, x + b"Tz")[sh]
+        if sh == 4 and (not x.strip() or x[:1] in b" \t#=-*:>`[" or x.startswith(b"&#")): return (None, [], dict(skipped=1))      # a title cannot begin with blanks or block markup
         if st == 0: h = b"# " + title + b"\n"
         elif st == 1: h = b"# " + title + b" #\n"
         elif st == 2: h = b"# " + title + b" ###\n"
